@@ -42,6 +42,7 @@ type LoopSum struct {
 }
 
 type Summary struct {
+	LocalInit map[string]*Term // initial value of address-taken locals that are assigned again later
 	Fn       *ssa.Function
 	Results  []*Term
 	Effects  []Effect
@@ -606,7 +607,21 @@ func (s *summarizer) allocTerm(a *ssa.Alloc, ref bool) *Term {
 				return t
 			}
 		}
-		return tSym(fmt.Sprintf("local#%d:%s", s.ord.allocOrd(a), shortType(elem)))
+		name := fmt.Sprintf("local#%d:%s", s.ord.allocOrd(a), shortType(elem))
+		if len(init) == 1 && init[0].field == "" {
+			root := s
+			for root.parent != nil {
+				root = root.parent
+			}
+			if root.sum.LocalInit == nil {
+				root.sum.LocalInit = map[string]*Term{}
+			}
+			if _, ok := root.sum.LocalInit[name]; !ok {
+				root.sum.LocalInit[name] = nil // guard against recursion through the initial value
+				root.sum.LocalInit[name] = s.term(init[0].st.Val)
+			}
+		}
+		return tSym(name)
 	}
 	return s.structFromStores(a, init, elem)
 }
@@ -1355,6 +1370,7 @@ func (s *summarizer) collect() {
 		s.sum.Loops = append(s.sum.Loops, ls)
 	}
 	s.sum.Closures = append([]*ssa.Function{}, s.ord.closList...)
+	canonicaliseSequences(s.sum)
 }
 
 func (s *summarizer) backEdgePC(p *ssa.BasicBlock, l *loopInfo) *Term {
